@@ -117,7 +117,7 @@ Section Analyse.
       destruct (alookup z roots) as [spz|] eqn:Ez; [|destruct Hy]. destruct Hy as [Hy|[]]. inversion Hy; subst.
       apply alookup_In in Ea, Ez.
       assert (x = y).
-      { clear -ids_distinct Ea Ez Eid. induction roots as [|[k v] rs IHr]; [destruct Ea|].
+      { rename H4 into Eid. clear -ids_distinct Ea Ez Eid. induction roots as [|[k v] rs IHr]; [destruct Ea|].
         simpl in ids_distinct. inversion ids_distinct; subst.
         destruct Ea as [Ea|Ea], Ez as [Ez|Ez].
         - congruence.
@@ -139,3 +139,58 @@ Section Analyse.
     unfold astep in E. rewrite E. cbn [rbind fst]. rewrite expected_ids_nodup by exact Hnd. reflexivity.
   Qed.
 End Analyse.
+
+(* ------------------------------------------------------------------ zip: str.startswith skipping *)
+Theorem zip_mapping_exact : forall o sch ms dst0 (roots : list (str * json)) names,
+  (* F6 lives in this hypothesis: no job root is a STRING prefix of another one *)
+  (forall r r', In r (List.map fst roots) -> In r' (List.map fst roots) -> startswith r r' = true -> r = r') ->
+  NoDup (List.map fst roots) ->
+  (forall r sp, In (r, sp) roots -> arch_schema_fn o sch (zip_read_sp o ms) r = ROk (Some sp)) ->
+  (forall x, ~ In x (List.map fst roots) -> arch_schema_fn o sch (zip_read_sp o ms) x = ROk None) ->
+  (forall r sp, In (r, sp) roots -> fs_exists (job_dir (job_id_of o sp)) dst0 = false) ->
+  NoDup (List.map (fun r => job_id_of o (snd r)) roots) ->
+  NoDup names ->
+  analyse o (arch_schema_fn o sch (zip_read_sp o ms)) (fun name skip => existsb (zip_under name) skip) false names dst0
+  = ROk (expected_maps o roots names).
+Proof.
+  intros o sch ms dst0 roots names Hpf Hnd Hroot Hother Hfresh Hids Hnames.
+  apply (analyse_exact o _ _ false dst0 roots
+           (fun done skip => forall s, In s skip -> In s (List.map fst roots) /\ In s done)); auto.
+  - intros s [].
+  - intros done skip r Hinv Hr Hdone. destruct (existsb (zip_under r) skip) eqn:E; auto.
+    apply existsb_exists in E. destruct E as [s [Hs Hu]]. destruct (Hinv s Hs) as [Hsr Hsd].
+    unfold zip_under in Hu. rewrite (Hpf r s Hr Hsr Hu) in Hdone. contradiction.
+  - intros done skip r Hinv Hr s [<-|Hs]; [split; [auto|left; auto]|].
+    destruct (Hinv s Hs). split; auto. right. auto.
+  - intros done skip x Hinv _ s Hs. destruct (Hinv s Hs). split; auto. right. auto.
+  - intros done skip x Hinv s Hs. destruct (Hinv s Hs). split; auto. right. auto.
+Qed.
+
+(* ------------------------------------------------------------------ tar: dirname-in-skip skipping *)
+Lemma iter_succ_r : forall A (f : A -> A) n x, Nat.iter (Datatypes.S n) f x = Nat.iter n f (f x).
+Proof. induction n as [|n IH]; intro x; simpl in *; auto. rewrite <- IH. reflexivity. Qed.
+
+Theorem tar_mapping_exact : forall o sch ms dst0 (roots : list (str * json)) names,
+  (* no job root lies below another one: no iterated dirname of a root is a root *)
+  (forall r r' n, In r (List.map fst roots) -> In r' (List.map fst roots) -> Nat.iter (Datatypes.S n) dirname r <> r') ->
+  NoDup (List.map fst roots) ->
+  (forall r sp, In (r, sp) roots -> arch_schema_fn o sch (tar_read_sp o ms) r = ROk (Some sp)) ->
+  (forall x, ~ In x (List.map fst roots) -> arch_schema_fn o sch (tar_read_sp o ms) x = ROk None) ->
+  (forall r sp, In (r, sp) roots -> fs_exists (job_dir (job_id_of o sp)) dst0 = false) ->
+  NoDup (List.map (fun r => job_id_of o (snd r)) roots) ->
+  NoDup names ->
+  analyse o (arch_schema_fn o sch (tar_read_sp o ms)) (fun name skip => str_mem (dirname name) skip) true names dst0
+  = ROk (expected_maps o roots names).
+Proof.
+  intros o sch ms dst0 roots names Hpf Hnd Hroot Hother Hfresh Hids Hnames.
+  apply (analyse_exact o _ _ true dst0 roots
+           (fun done skip => forall s, In s skip -> exists r n, In r (List.map fst roots) /\ Nat.iter n dirname s = r)); auto.
+  - intros s [].
+  - intros done skip r Hinv Hr _. destruct (str_mem (dirname r) skip) eqn:E; auto.
+    apply str_mem_In in E. destruct (Hinv _ E) as [r' [n [Hr' Hit]]].
+    exfalso. apply (Hpf r r' n Hr Hr'). rewrite iter_succ_r. exact Hit.
+  - intros done skip r Hinv Hr s [<-|Hs]; [exists r, 0%nat; auto|apply Hinv; exact Hs].
+  - intros done skip x Hinv Hsk s [<-|Hs]; [|apply Hinv; exact Hs].
+    apply str_mem_In in Hsk. destruct (Hinv _ Hsk) as [r [n [Hr Hit]]].
+    exists r, (Datatypes.S n). split; auto. rewrite iter_succ_r. exact Hit.
+Qed.
